@@ -63,6 +63,9 @@ def main():
             else:
                 have[f["id"]] = len(base["findings"])
                 base["findings"].append(f)
+    for f in base["findings"]:
+        if f.get("kind") == "fixed" and not f["what"].startswith("fixed: property="):
+            f["what"] = "fixed: property=%s %s %s" % (f["property"], f.get("commit", "?"), f["what"])
     json.dump(base, open(kf, "w"), indent=1)
     print("MANIFEST: %d checks, %d not applicable; known findings: %d" % (len(checks), len(na), len(base["findings"])))
 
